@@ -89,6 +89,7 @@ def run_crate(repo, crate, units, jobs, log_dir):
         counted = []
         for c in failed:
             if c.get('category') == 'unwind': continue
+            if c.get('category') == 'NaN': continue   # CBMC --nan-check: producing a NaN is legal IEEE-754 / Rust behaviour, not a violation
             if u['mayreject'] and c.get('category') == 'assertion' and not is_harness(c):
                 continue   # the validator's own assert!/expect/unwrap/index panic: a rejection
             if c.get('category') == 'unsupported_construct' or 'not currently supported' in c.get('description', ''):
